@@ -338,6 +338,22 @@ def case_ranges(c: dict) -> dict:
         return r.result(inadmissible="deflagration/hybrid window narrower than 0.01")
     rows = scan_window(eos, Tn, tol, base, tier)
     ok = [i for i, q in enumerate(rows) if q["status"] == "ok"]
+    # fastestDeflag scans 16 velocities of its own (vMin + vBracketLow ... vJ - vBracketLow): if the matching it gets at one of
+    # them violates the junction conditions (known finding D9 of C02) its answer is computed from garbage. Which scan points
+    # fail depends on rounding, so this is established per case here (same validation as everywhere else) and a violation
+    # of a tainted case carries the marker 'D9-tainted-scan' in its relation name (known finding D9-C06).
+    taint = []
+    for vs in np.linspace(float(base.vMin) + float(base.vBracketLow), vJ - float(base.vBracketLow), 16):
+        try:
+            st = validate(eos, Tn, tol, base, float(vs), base.findMatching(float(vs)), need_S=False)["status"]
+        except Exception:
+            st = "raised"
+        if st != "ok":
+            taint.append([float(vs), st])
+    r.detail["fastestDeflag_own_scan_invalid"] = taint
+    marker = "D9-tainted-scan:" if taint else ""
+    if taint:
+        r.tag("fastestDeflag-own-scan-tainted(D9)")
     for q in rows:
         if q["status"] == "D9":
             r.tag("skipped-nonconserved(D9)")
@@ -365,7 +381,7 @@ def case_ranges(c: dict) -> dict:
                     r.tag(f"no-{kH}-crossing-of-T+")
                     continue
                 rg["TMaxHighT"] = kinds["Tp"][kH][0]
-            njudged += judge_fastest(r, eos, Tn, tol, base, rows, label, rg, kL, kH)
+            njudged += judge_fastest(r, eos, Tn, tol, base, rows, label + ":" + marker.rstrip(":") if marker else label, rg, kL, kH)
     else:
         r.tag("window-scan-mostly-invalid")
     njudged += judge_slowest(r, eos, Tn, tol, base, tier)
